@@ -40,6 +40,7 @@ func init() {
 			fragmentStatsTruthful(r)
 			kvInsertIntoWritableHead(r)
 			c06CollectedVersionsComplete(r)
+			c06ReadRepairOnlyCurrentHolders(r)
 		},
 	})
 }
